@@ -43,7 +43,8 @@ CHECKS = {
          "Equal over every single-byte difference, length differences and foreign types; each event validated by TLC against Api.tla (GenKeyExpected, EqualExpected)"),
  "C16": ("4 C16", "R1: the recodings reconstruct every scaled scalar with digits in range (TLC, exhaustive over 16 bits); the point formulas of ge25519.go on every pair of points (all orders, several scalings) of small curves of "
          "edwards25519's shape, ScalarmultBaseNiels for every scalar and DoubleScalarmultVartime for every point and scalar pair at the scaled size (MCGroupLaw, with four refuted controls); R2: complete enumeration of the selector domain 32 x 17 on every backend; "
-         "R3: selector entries (niels relation), fixed-base and double-base results validated by TLC in exact arithmetic against the Z_L x Z_8 coordinates; projection audited bit by bit in TLA+"),
+         "R3: selector entries (niels relation), fixed-base and double-base results validated by TLC in exact arithmetic against the Z_L x Z_8 coordinates; every point formula called with recorded coordinates - right point (verdict) and "
+         "coordinate-for-coordinate equality with the transcribed formula over the real field (GroupFormulasBig; NOTE) - which binds MCGroupLaw to the code; projection audited bit by bit in TLA+"),
  "C18": ("4 C18", "R3 (sampling with an exact oracle): every field operation of both limb layouts on limb-boundary inputs and on the operand classes the group law produces; TLC computes the represented integers "
          "(and, with FieldLimbsBig, predicts the result limb for limb from the limb-level transcription at the real widths - the binding of the scaled R1 models to the code) "
          "from the limbs and checks the residue identity, canonical serialisation, parsing and conditional swap in BigNat arithmetic; R1 (TLC, exhaustive at scaled sizes): limb-level transcriptions of both layouts "
